@@ -335,3 +335,48 @@ package dataflow
 //@   ensures next: istype(v, *ssa.Next) && !v.(*ssa.Next).IsString && fresh_mark() ==> called(markValue, state, i, v.(*ssa.Next).Iter, _, mark)
 //@   ensures range: istype(v, *ssa.Range) && fresh_mark() ==> called(markValue, state, i, v.(*ssa.Range).X, path, mark)
 //@   ensures extract: istype(v, *ssa.Extract) && lang.IsNillableType(v.(*ssa.Extract).Type()) && fresh_mark() ==> called(markValue, state, i, v.(*ssa.Extract).Tuple, path, mark)
+
+// ---------------------------------------------------------------------------
+// C12: the reachable-function set is CLOSED under call-graph edges: whenever a
+// function is in the set, every callee of every edge leaving its call-graph node is
+// in the set too (worklist algorithm; the invariant says an edge out of a reachable
+// function is either already followed or its source node is still on the worklist).
+// cgwf: the call graph is well formed (Nodes[f].Func == f, edges point at the
+// canonical node of their callee) -- an invariant of x/tools' callgraph package,
+// stated as a precondition.
+//@ spec cgwf(cg *callgraph.Graph) bool = cg != nil && (forall f *ssa.Function :: has(cg.Nodes, f) ==> cg.Nodes[f] != nil && cg.Nodes[f].Func == f) && (forall f *ssa.Function, k int :: has(cg.Nodes, f) && 0 <= k && k < len(cg.Nodes[f].Out) ==> cg.Nodes[f].Out[k] != nil && cg.Nodes[f].Out[k].Callee != nil && has(cg.Nodes, cg.Nodes[f].Out[k].Callee.Func) && cg.Nodes[cg.Nodes[f].Out[k].Callee.Func] == cg.Nodes[f].Out[k].Callee)
+//@ spec canon(cg *callgraph.Graph, n *callgraph.Node) bool = n != nil && has(cg.Nodes, n.Func) && cg.Nodes[n.Func] == n
+//@ spec onWL(wl []*callgraph.Node, x *callgraph.Node) bool = exists j int :: 0 <= j && j < len(wl) && wl[j] == x
+
+//@ func findCallgraphEntryPoints
+//@   property C12
+//@   requires wf: cgwf(cg)
+//@   ensures canonical: forall i int :: 0 <= i && i < len(result) ==> canon(cg, result[i])
+//@   modifies nothing
+//@   loop f invariant isfresh(entryPoints)
+//@   loop f invariant preserved(elems(*callgraph.Node))
+//@   loop f invariant forall i int :: 0 <= i && i < len(entryPoints) ==> canon(cg, entryPoints[i])
+
+//@ func CallGraphReachable
+//@   property C12
+//@   option append_both
+//@   requires wf: cgwf(cg)
+//@   ensures closed{wf,pend,pend3}: forall f *ssa.Function, k int :: has(cg.Nodes, f) && result[f] && 0 <= k && k < len(cg.Nodes[f].Out) ==> result[cg.Nodes[f].Out[k].Callee.Func]
+//@   ensures entries{ent2,ent3}: forall i int :: 0 <= i && i < len(retof(findCallgraphEntryPoints, cg, excludeMain, excludeInit)) ==> result[retof(findCallgraphEntryPoints, cg, excludeMain, excludeInit)[i].Func]
+//@   modifies nothing
+//@   loop 1 invariant ent1{ent1,fresh1}: forall i int :: 0 <= i && i < iter(1) ==> reachable[entryPoints[i].Func]
+//@   loop 2 invariant ent2{ent1,ent2,ent3,fresh1,fresh,fresh3}: ref(frontier) != ref(entryPoints) && (forall i int :: 0 <= i && i < len(entryPoints) ==> reachable[entryPoints[i].Func])
+//@   loop 3 invariant ent3{ent2,ent3,fresh,fresh3}: ref(frontier) != ref(entryPoints) && (forall i int :: 0 <= i && i < len(entryPoints) ==> reachable[entryPoints[i].Func])
+//@   loop 1 invariant fresh1{fresh1}: isfresh(frontier) && isfresh(reachable) && ref(frontier) != ref(entryPoints)
+//@   loop 1 invariant entries1{fresh1,entries1}: forall i int :: 0 <= i && i < len(entryPoints) ==> canon(cg, entryPoints[i])
+//@   loop 1 invariant frame1: preserved(all)
+//@   loop 2 invariant frame2: preserved(all)
+//@   loop 3 invariant frame3: preserved(all)
+//@   loop 1 invariant pend1{wf,pend1,fresh1,entries1}: forall f *ssa.Function :: reachable[f] ==> has(cg.Nodes, f) && onWL(frontier, cg.Nodes[f])
+//@   loop 1 invariant can1{can1,entries1,fresh1}: forall j int :: 0 <= j && j < len(frontier) ==> canon(cg, frontier[j])
+//@   loop 2 invariant can2{can1,can2,can3,fresh,fresh3,wf}: forall j int :: 0 <= j && j < len(frontier) ==> canon(cg, frontier[j])
+//@   loop 3 invariant can3{can2,can3,fresh,fresh3,wf}: canon(cg, node) && (forall j int :: 0 <= j && j < len(frontier) ==> canon(cg, frontier[j]))
+//@   loop 2 invariant fresh{fresh1,fresh,fresh3}: isfresh(frontier) && isfresh(reachable)
+//@   loop 3 invariant fresh3{fresh,fresh3}: isfresh(frontier) && isfresh(reachable)
+//@   loop 2 invariant pend{wf,pend,pend1,pend3,can2,can3}: forall f *ssa.Function, k int :: has(cg.Nodes, f) && reachable[f] && 0 <= k && k < len(cg.Nodes[f].Out) ==> reachable[cg.Nodes[f].Out[k].Callee.Func] || onWL(frontier, cg.Nodes[f])
+//@   loop 3 invariant pend3{wf,pend,pend3,can2,can3,fresh,fresh3}: forall f *ssa.Function, k int :: has(cg.Nodes, f) && reachable[f] && 0 <= k && k < len(cg.Nodes[f].Out) ==> reachable[cg.Nodes[f].Out[k].Callee.Func] || onWL(frontier, cg.Nodes[f]) || (cg.Nodes[f] == node && k >= iter(edge))
